@@ -321,3 +321,17 @@ func (a *Analysis) pinnedTable(g *Golden, name string) string {
 	}
 	return name
 }
+
+// discriminatorPremise: several properties argue from "the discriminator selects the pinned body type" (which type a
+// key builds, on both sides, and that every other key is refused): C12 decides that; its violations are violations of
+// the property that rests on it.
+func (a *Analysis) discriminatorPremise(rep *Report, rule, why string) {
+	scratch := NewReport("C12", "other", "quick", 0)
+	a.CheckC12(scratch)
+	for _, v := range scratch.Violations {
+		rep.Ob(rule, v.Key, false, v.Pos, why+": "+v.Msg)
+	}
+	if len(scratch.Violations) == 0 {
+		rep.Ob(rule, "all-tables", true, "", "")
+	}
+}
